@@ -418,10 +418,10 @@ def handle : List String → Option String
       let ks ← parseInts? rest
       let idx := (List.range ks.length).zip ks
       some (joinWith " " ((dedup (fun (p : Nat × Int) => p.2) idx).map (fun p => toString p.1)))
-  -- `size <tree>` : `np.atleast_1d(x).size` and the flattened length
+  -- `size <tree>` : `np.atleast_1d(flatten(x)).size`
   | "size" :: rest => do
       let (t, r) ← pTree rest
       if r ≠ [] then none else
-      some ((match t.npSize with | .ok n => toString n | .error e => showErr e) ++ " " ++ toString t.flatSize)
+      some (toString t.flatSize)
   | _ => none
 end PyGam.Drv.C14
